@@ -198,7 +198,10 @@ class Check(object):
                 rid, r["instances"], r["obligations"], r["discharged"], r["what"][:90]))
         for ln in lines:
             print(ln)
-        floor_errors = getattr(self, "floor_errors", [])
+        floor_errors = list(dict.fromkeys(getattr(self, "floor_errors", [])))
+        if floor_errors and unlisted:
+            for e in floor_errors:
+                print("NOTE property=%s: part of the analysis gave no verdict (the violations above stand on their own): %s" % (self.prop, str(e)[:300]))
         if floor_errors and not unlisted:
             for e in floor_errors:
                 print("ANALYSIS-ERROR property=%s: %s" % (self.prop, e))
@@ -229,6 +232,7 @@ def _export(chk):
         "rules": plain(chk.rules),
         "counters": {k: (sorted(v) if isinstance(v, set) else v) for k, v in chk.counters.items()},
         "nontrivial": [repr(x) for x in chk.nontrivial], "notes": list(chk.notes),
+        "floor_errors": list(getattr(chk, "floor_errors", [])),
     }
 
 
@@ -260,6 +264,10 @@ def _merge(chk, d):
             chk.counters[k] = chk.counters.get(k, 0) + v
     chk.nontrivial.update(d["nontrivial"])
     chk.notes.extend(n for n in d["notes"] if n not in chk.notes)
+    if d.get("floor_errors"):
+        if not hasattr(chk, "floor_errors"):
+            chk.floor_errors = []
+        chk.floor_errors.extend(d["floor_errors"])
 
 
 def _worker(args):
@@ -292,5 +300,9 @@ def run_parallel(chk, tasks):
             results = pool.map(_worker, payload, chunksize=1)
     for status, data in results:
         if status != "ok":
-            raise AnalysisError(data)
+            # no verdict from this exploration: recorded, the others still count (violations win, see finish())
+            if not hasattr(chk, "floor_errors"):
+                chk.floor_errors = []
+            chk.floor_errors.append(data)
+            continue
         _merge(chk, data)
